@@ -215,7 +215,11 @@ func (p *provRunner) Do(line string) {
 			p.t.obs("env", fmt.Sprintf("conn.connection-%d", 900+i), fmt.Sprintf("%s|pre%d-1|7", cid, i), fmt.Sprintf("rev.pre%d-1", i), 1)
 		}
 	case "stk":
-		r, _ := w.stk.rec(w.ctx, int(op.i("v")))
+		r, okv := w.stk.rec(w.ctx, int(op.i("v")))
+		if !okv {
+			err = fmt.Errorf("no such validator")
+			break
+		}
 		r.Tokens = op.i("tokens")
 		w.stk.setRec(w.ctx, r)
 	case "newval":
@@ -242,28 +246,52 @@ func (p *provRunner) Do(line string) {
 			return w.pk.Hooks().AfterValidatorRemoved(ctx, w.pool.ids[id].consAddr, w.pool.ids[id].ci.SDKValOpAddress())
 		})
 	case "stkjail":
-		r, _ := w.stk.rec(w.ctx, int(op.i("v")))
+		r, okv := w.stk.rec(w.ctx, int(op.i("v")))
+		if !okv {
+			err = fmt.Errorf("no such validator")
+			break
+		}
 		r.Jailed, r.InIndex = true, false
 		w.stk.setRec(w.ctx, r)
 	case "stkunjail":
-		r, _ := w.stk.rec(w.ctx, int(op.i("v")))
+		r, okv := w.stk.rec(w.ctx, int(op.i("v")))
+		if !okv {
+			err = fmt.Errorf("no such validator")
+			break
+		}
 		r.Jailed, r.InIndex = false, true
 		w.stk.setRec(w.ctx, r)
 	case "stkunbond":
-		r, _ := w.stk.rec(w.ctx, int(op.i("v")))
+		r, okv := w.stk.rec(w.ctx, int(op.i("v")))
+		if !okv {
+			err = fmt.Errorf("no such validator")
+			break
+		}
 		r.Status = int(stakingtypes.Unbonded)
 		r.LastPower = 0
 		w.stk.setRec(w.ctx, r)
 	case "stktomb":
-		r, _ := w.stk.rec(w.ctx, int(op.i("v")))
+		r, okv := w.stk.rec(w.ctx, int(op.i("v")))
+		if !okv {
+			err = fmt.Errorf("no such validator")
+			break
+		}
 		r.Tombstoned = true
 		w.stk.setRec(w.ctx, r)
 	case "stkubd":
-		r, _ := w.stk.rec(w.ctx, int(op.i("v")))
+		r, okv := w.stk.rec(w.ctx, int(op.i("v")))
+		if !okv {
+			err = fmt.Errorf("no such validator")
+			break
+		}
 		r.UBDs = append(r.UBDs, UBD{Amount: op.i("amt"), Completion: t0.UnixNano() + op.i("at"), OnHold: op.i("hold") == 1})
 		w.stk.setRec(w.ctx, r)
 	case "stkred":
-		r, _ := w.stk.rec(w.ctx, int(op.i("v")))
+		r, okv := w.stk.rec(w.ctx, int(op.i("v")))
+		if !okv {
+			err = fmt.Errorf("no such validator")
+			break
+		}
 		r.REDs = append(r.REDs, UBD{Amount: op.i("amt"), Completion: t0.UnixNano() + op.i("at"), OnHold: op.i("hold") == 1})
 		w.stk.setRec(w.ctx, r)
 	case "stkend":
